@@ -18,8 +18,10 @@ import LitexModel.Axi.LiteDecoder
   channel absent.  The AXI4 classes differ from the AXI-Lite ones only in the response counted by the read
   counters (`& r.last`): `full = true`.
 
-  Not modelled: `first`/`last` lines of the channels other than `r.last` (copied by the same statements, read by
-  nothing), the optional `AXILiteTimeout` of the shared interconnect (property C11).
+  The stream `first`/`last` lines of every channel are copied by the same statements as the payload (read by nothing
+  but the AXI4 read counter's `r.last`): the harness packs them into the `*Pay` numbers, so they are covered as
+  pass-through payload (`axl_id_preserved` holds for any field).  The shared interconnect with a finite
+  `timeout_cycles` is `LiteInterconnectTimeout.lean` (composition with C11's `AXI(Lite)Timeout` model).
   Core Lean only (linked into `drv_c08`).
 -/
 namespace Litex.Axi.Lite
@@ -41,6 +43,10 @@ structure Cfg where
   dec   : Nat → Nat → Bool       -- `dec j a`: decoder of slave `j` on the word address
   shift : Nat                    -- `log2(data_width/8)`
   full  : Bool                   -- AXI4 (`axi_full.py`) instead of AXI-Lite
+  /-- where `w.last` sits inside the packed write-data payload `dPay` (AXI4: the harness packs it on top; AXI-Lite:
+      every data transfer is complete).  Read by the *specification* of the data routing only — the code, and hence
+      the model, never looks at `w.last`. -/
+  wlast : Nat → Bool := fun _ => true
 
 /-- `rd = true`: read direction. -/
 def Cfg.decCfg (c : Cfg) (rd : Bool) : DecCfg := { m := c.m, dec := c.dec, shift := c.shift, gated := c.full && rd }
